@@ -152,11 +152,13 @@ impl Snapshot {
 	/// This is a helper method used by both iterators and optimized operations
 	/// like count
 	pub(crate) fn collect_iter_state(&self) -> Result<IterState> {
+		// Lock order: active_memtable -> level_manifest -> immutable_memtables, the same
+		// order flush and compaction use (they nest manifest -> immutable).
 		let active = guardian::ArcRwLockReadGuardian::take(Arc::clone(&self.core.active_memtable))?;
-		let immutable =
-			guardian::ArcRwLockReadGuardian::take(Arc::clone(&self.core.immutable_memtables))?;
 		let manifest =
 			guardian::ArcRwLockReadGuardian::take(Arc::clone(&self.core.level_manifest))?;
+		let immutable =
+			guardian::ArcRwLockReadGuardian::take(Arc::clone(&self.core.immutable_memtables))?;
 
 		Ok(IterState {
 			active: active.clone(),
